@@ -1,164 +1,26 @@
 /-
-  C05 — Attributes: exact set, source order, values normalised per XML 1.0 §3.3.3.
+  C05 — Attributes: exact set, source order, §3.3.3 normalisation.
+  `Rox.Props.C05Base`: `push_from_attr` against the spec, routing. This file: `normalize_attribute`
+  end to end.
 -/
-import Rox.Spec.Text
-import Rox.Lemmas.Size
+import Rox.Props.C05Base
+import Rox.Lemmas.Decode
 
 namespace Rox.Props.C05
 open Rox Rox.Spec Rox.Lemmas
 
-/-- The bytes of an attribute buffer (it never holds a pending CR: only `push_from_text` sets it). -/
-def out (b : TextBuffer) : Bytes := b.rev.reverse
-
-/-- `push_from_attr` on a literal run with one byte of look-ahead, as the loop of
-`_normalize_attribute` applies it. -/
-def pushLit (b : TextBuffer) : Bytes → TextBuffer
-  | [] => b
-  | c :: r => pushLit (b.pushFromAttr c r.head?) r
-
-/-- Literal characters: each TAB, LF, CR becomes one space, CR LF one space, nothing else
-changes, nothing is trimmed or collapsed (§3.3.3 after §2.11). -/
-theorem pushLit_spec (l : Bytes) : ∀ b : TextBuffer, out (pushLit b l) = out b ++ attrLit l := by
-  induction l using attrLit.induct with
-  | case1 => intro b; simp [pushLit, attrLit]
-  | case2 r ih =>
-    intro b
-    simp only [pushLit, List.head?_cons, attrLit]
-    rw [ih]
-    simp [out, TextBuffer.pushFromAttr, bCR, bLF, bTab, bSp]
-  | case3 x r hne ih =>
-    intro b
-    simp only [pushLit]
-    rw [ih]
-    have hdrop : ¬ (x = 13 ∧ r.head? = some 10) := by
-      rintro ⟨rfl, h⟩
-      cases r with
-      | nil => simp at h
-      | cons y r' => simp at h; subst h; exact hne r' rfl rfl
-    have hat : attrLit (x :: r) = (if x == 13 || x == 10 || x == 9 then 32 else x) :: attrLit r := by
-      rw [attrLit]; exact hne
-    rw [hat]
-    unfold TextBuffer.pushFromAttr out
-    by_cases h13 : x = 13
-    · subst h13
-      have : ¬ (r.head? = some 10) := fun h => hdrop ⟨rfl, h⟩
-      simp [bCR, bLF, bTab, bSp, this]
-    · simp [bCR, bLF, bTab, bSp, h13]
-
-/-- The literal part of the loop of `_normalize_attribute`: on a stream without `&` and `<` it
-pushes exactly `pushLit`, touches neither the loop detector nor anything else, at every entity
-depth. -/
-theorem normAttrLoop_literal (T : Tables) (txt : Bytes) (ents : List Entity)
-    (rec : Span → TextBuffer → LD → List Ev → Res (TextBuffer × LD × List Ev)) (ld : LD) (tr : List Ev) :
-    ∀ (l : Bytes) (fuel pos : Nat) (buf : TextBuffer), l.length < fuel →
-      (∀ c ∈ l, c ≠ bAmp ∧ c ≠ bLt) →
-      normAttrLoop T txt ents rec fuel ⟨pos, l⟩ buf ld tr = .ok (pushLit buf l, ld, tr) := by
-  intro l
-  induction l with
-  | nil =>
-    intro fuel pos buf hf _
-    cases fuel with
-    | zero => omega
-    | succ f => simp [normAttrLoop, pushLit]
-  | cons c r ih =>
-    intro fuel pos buf hf hall
-    cases fuel with
-    | zero => omega
-    | succ f =>
-      have hc := hall c (by simp)
-      simp only [normAttrLoop, ne_eq, hc.1, not_false_eq_true, bne_iff_ne, if_true]
-      have : (c == bLt) = false := by simpa using hc.2
-      simp only [this, Bool.false_eq_true, if_false]
-      rw [ih f (pos + 1) _ (by simp at hf; omega) (fun x hx => hall x (by simp [hx]))]
-      simp [pushLit, Stream.currByte?]
-
-/-- A character reference written directly in the value (entity depth 0) contributes the
-referenced character's bytes unchanged: `&#10;`, `&#13;`, `&#9;` are NOT turned into spaces. -/
-theorem charref_kept (b : TextBuffer) (ch : Nat) (hp : b.pendingCr = false) :
-    out (b.pushBytesRaw (encodeChar ch)) = out b ++ encodeChar ch := by
-  have key : ∀ (l : Bytes) (b : TextBuffer), b.pendingCr = false →
-      out (b.pushBytesRaw l) = out b ++ l ∧ (b.pushBytesRaw l).pendingCr = false := by
-    intro l
-    induction l with
-    | nil => intro b hp; simp [TextBuffer.pushBytesRaw, hp]
-    | cons x r ih =>
-      intro b hp
-      have h1 : (b.pushRaw x).pendingCr = false ∧ out (b.pushRaw x) = out b ++ [x] := by
-        simp [TextBuffer.pushRaw, TextBuffer.resolvePendingCr, hp, out]
-      have := ih _ h1.1
-      simp only [TextBuffer.pushBytesRaw, List.foldl] at *
-      rw [this.1, h1.2]; simp [this.2]
-  exact (key _ b hp).1
-
-/-- Routing: an `xmlns` / `xmlns:*` attribute never reaches the attribute list; every other
-attribute is appended to it, in event (= source) order, with its normalised value. -/
-theorem routing (T : Tables) (txt : Bytes) (c c' : Ctx) (r : Range) (q e : Nat) (pfx loc v : Span)
-    (h : processAttribute T txt c r q e pfx loc v = .ok c') :
-    if pfx.bytes = Lit.xmlns ∨ (pfx.bytes = [] ∧ loc.bytes = Lit.xmlns) then c'.curAttrs = c.curAttrs
-    else ∃ value, c'.curAttrs = c.curAttrs ++ [⟨pfx, loc, value, r, q, e⟩] := by
-  unfold processAttribute at h
-  rw [Res.bind_eq_ok] at h
-  obtain ⟨⟨c1, value⟩, h1, h⟩ := h
-  have hc1 : c1.curAttrs = c.curAttrs := by
-    unfold normalizeAttribute at h1
-    split at h1
-    · rw [Res.bind_eq_ok] at h1
-      obtain ⟨⟨buf, ld, tr⟩, _, h1⟩ := h1
-      rw [Res.bind_eq_ok] at h1
-      obtain ⟨o, _, h1⟩ := h1
-      res_norm at h1
-      rw [← h1.1]
-    · res_norm at h1; rw [← h1.1]
-  dsimp only at h
-  by_cases hx : pfx.bytes = Lit.xmlns
-  · simp only [hx, true_or, if_true]
-    simp only [hx, beq_self_eq_true, if_true] at h
-    split at h
-    · exact absurd h (errPos_ne_ok _ _ _ _)
-    · split at h
-      · exact absurd h (errPos_ne_ok _ _ _ _)
-      · try dsimp only at h
-        split at h
-        · exact absurd h (errPos_ne_ok _ _ _ _)
-        · split at h
-          · exact absurd h (errPos_ne_ok _ _ _ _)
-          · rw [Res.bind_eq_ok] at h
-            obtain ⟨ex, _, h⟩ := h
-            split at h
-            · exact absurd h (errPos_ne_ok _ _ _ _)
-            · split at h
-              · rw [Res.bind_eq_ok] at h
-                obtain ⟨ns, _, h⟩ := h
-                res_norm at h; subst h; simpa [Ctx.log] using hc1
-              · res_norm at h; subst h; simpa [Ctx.log] using hc1
-  · have hx' : (pfx.bytes == Lit.xmlns) = false := by simpa using hx
-    simp only [hx', Bool.false_eq_true, if_false] at h
-    by_cases hd : pfx.bytes = [] ∧ loc.bytes = Lit.xmlns
-    · simp only [hx, false_or, hd, and_self, if_true]
-      have : (pfx.bytes.isEmpty && loc.bytes == Lit.xmlns) = true := by simp [hd.1, hd.2]
-      simp only [this, if_true] at h
-      split at h
-      · exact absurd h (errPos_ne_ok _ _ _ _)
-      · split at h
-        · exact absurd h (errPos_ne_ok _ _ _ _)
-        · rw [Res.bind_eq_ok] at h
-          obtain ⟨ex, _, h⟩ := h
-          split at h
-          · exact absurd h (errPos_ne_ok _ _ _ _)
-          · rw [Res.bind_eq_ok] at h
-            obtain ⟨ns, _, h⟩ := h
-            res_norm at h; subst h; simpa [Ctx.log] using hc1
-    · simp only [hx, false_or, hd, if_false]
-      have : (pfx.bytes.isEmpty && loc.bytes == Lit.xmlns) = false := by
-        simp only [Bool.and_eq_false_iff, List.isEmpty_eq_false_iff, ne_eq, beq_eq_false_iff_ne]
-        by_cases h1 : pfx.bytes = []
-        · right; exact fun h2 => hd ⟨h1, h2⟩
-        · left; exact h1
-      simp only [this, Bool.false_eq_true, if_false] at h
-      res_norm at h; subst h
-      exact ⟨value, by simp [Ctx.log, hc1]⟩
-
-/-- Non-vacuity and the former defect D12: `p:xmlns` is an ordinary attribute. -/
-example : attrLit [97, 13, 10, 9, 98, 13] = [97, 32, 32, 98, 32] := by decide
+/-- **End to end, entity depth 0** (every attribute value that needs normalisation and consists of
+literal characters, character references and predefined entity references): if
+`normalize_attribute` succeeds, the value it returns is exactly the §3.3.3 normalisation of the
+run (`attrDecode`: each literal TAB, LF, CR one space, CR LF one space, nothing trimmed or
+collapsed, referenced characters — `&#10;`, `&#13;`, `&#9;` included — kept as they are), and the
+loop detector is untouched. -/
+theorem attribute_value_normalized (T : Tables) (txt : Bytes) (c c' : Ctx) (value : Span) (out : Str)
+    (hd : c.ld.depth = 0) (ps : List Piece)
+    (hp : runPieces T txt (value.bytes.length + 1) ⟨value.off, value.bytes⟩ = some ps)
+    (hneed : value.bytes.any (fun b => b == bAmp || b == bTab || b == bLF || b == bCR) = true)
+    (h : normalizeAttribute T txt c value = .ok (c', out)) :
+    out = .owned (attrDecode ps) ∧ c'.ld = c.ld :=
+  normalizeAttribute_decodes T txt c c' value out hd ps hp hneed h
 
 end Rox.Props.C05
